@@ -126,51 +126,63 @@ inductive StepResult where
   | fail (e : Err)
   | unmodelled (what : String)
 
+/-- `memorySize`, rounded up to whole words: `memSize, overflow := operation.memorySize(stack)`,
+then `SafeMul(toWordSize(memSize), 32)`; 0 when the slot has no memory-size function. -/
+def stepMemSize (info : OpInfo) (st : List Word) : Except StepResult Nat :=
+  match memorySizeOf info.memSize st with
+  | .noFn => .ok 0
+  | .panic => .error (.fail .goPanic)
+  | .unmodelled n => .error (.unmodelled n)
+  | .size sz overflow =>
+    if overflow then .error (.fail .gasUintOverflow)
+    else if (safeMul (toWordSize sz) 32).2 then .error (.fail .gasUintOverflow)
+    else .ok (safeMul (toWordSize sz) 32).1
+
+/-- the dynamic portion of gas: (gas left, new `lastGasCost`) -/
+def stepDynGas (p : GasParams) (info : OpInfo) (f : Frame) (gas1 memorySize : Nat) :
+    Except StepResult (Nat × Nat) :=
+  match dynGasOf p info.dynGas f.stack f.mem.length f.lastGasCost memorySize with
+  | .noFn => .ok (gas1, f.lastGasCost)
+  | .unmodelled n => .error (.unmodelled n)
+  | .error => .error (.fail .outOfGas)
+  | .cost c last => if gas1 < c then .error (.fail .outOfGas) else .ok (gas1 - c, last)
+
+/-- the frame `execute` runs on: gas charged, `mem.Resize(memorySize)` done when it is > 0 -/
+def preExec (f : Frame) (gas2 last memorySize : Nat) : Frame :=
+  { f with gas := gas2, lastGasCost := last,
+           mem := if memorySize > 0 then Mem.resize f.mem memorySize else f.mem }
+
+/-- after a successful `execute` that neither halts nor reverts: `returns` stores the result
+as return data, `!jumps` advances the pc -/
+def postExec (info : OpInfo) (f1 : Frame) (res : Bytes) : Frame :=
+  let f2 := if info.returns then { f1 with returnData := res } else f1
+  if !info.jumps then { f2 with pc := f2.pc + 1 } else f2
+
+/-- `res, err = operation.execute(&pc, in, callContext)` and the `switch` after it -/
+def stepExec (H : Bytes → Bytes) (info : OpInfo) (f : Frame) (gas2 last memorySize : Nat) : StepResult :=
+  match execOp H info.exec (preExec f gas2 last memorySize) with
+  | .err e => .fail e
+  | .unmodelled n => .unmodelled n
+  | .ok f1 res =>
+    if info.reverts then .revert res f1.gas
+    else if info.halts then .halt res f1.gas
+    else .next (postExec info f1 res)
+
 /-- One iteration of the `for` loop in `EVMInterpreter.Run` (readOnly = false). -/
 def step (H : Bytes → Bytes) (t : Table) (p : GasParams) (f : Frame) : StepResult :=
-  let op := getOp f.code f.pc
-  match t.get op with
+  match t.get (getOp f.code f.pc) with
   | none => .fail .invalidOpcode
   | some info =>
     if f.stack.length < info.minStack then .fail .stackUnderflow
     else if f.stack.length > info.maxStack then .fail .stackOverflow
     else if f.gas < info.constantGas then .fail .outOfGas
     else
-      let gas1 := f.gas - info.constantGas
-      -- memory size, rounded up to words
-      let ms : Except StepResult Nat :=
-        match memorySizeOf info.memSize f.stack with
-        | .noFn => .ok 0
-        | .panic => .error (.fail .goPanic)
-        | .unmodelled n => .error (.unmodelled n)
-        | .size sz overflow =>
-          if overflow then .error (.fail .gasUintOverflow)
-          else
-            let (m, o) := safeMul (toWordSize sz) 32
-            if o then .error (.fail .gasUintOverflow) else .ok m
-      match ms with
+      match stepMemSize info f.stack with
       | .error r => r
       | .ok memorySize =>
-        -- dynamic gas
-        let dg : Except StepResult (Nat × Nat) :=
-          match dynGasOf p info.dynGas f.stack f.mem.length f.lastGasCost memorySize with
-          | .noFn => .ok (gas1, f.lastGasCost)
-          | .unmodelled n => .error (.unmodelled n)
-          | .error => .error (.fail .outOfGas)
-          | .cost c last => if gas1 < c then .error (.fail .outOfGas) else .ok (gas1 - c, last)
-        match dg with
+        match stepDynGas p info f (f.gas - info.constantGas) memorySize with
         | .error r => r
-        | .ok (gas2, last) =>
-          let mem := if memorySize > 0 then Mem.resize f.mem memorySize else f.mem
-          match execOp H info.exec { f with gas := gas2, lastGasCost := last, mem := mem } with
-          | .err e => .fail e
-          | .unmodelled n => .unmodelled n
-          | .ok f' res =>
-            let f' := if info.returns then { f' with returnData := res } else f'
-            if info.reverts then .revert res f'.gas
-            else if info.halts then .halt res f'.gas
-            else if !info.jumps then .next { f' with pc := f'.pc + 1 }
-            else .next f'
+        | .ok (gas2, last) => stepExec H info f gas2 last memorySize
 
 inductive Outcome where
   | ok (ret : Bytes) (gas : Nat)
